@@ -5,12 +5,9 @@ From PB Require Import model.M_sort.
 Import ListNotations.
 Open Scope Z_scope.
 
-(* `key == prev` on key tuples: element-wise `is or ==` *)
-Definition key_eqb (a b : val) : bool :=
-  match a, b with
-  | VTuple x, VTuple y => Nat.eqb (length x) (length y) && forallb (fun p => elem_eqb (fst p) (snd p)) (combine x y)
-  | _, _ => elem_eqb a b
-  end.
+(* the run test of _listby: `cmp(key, prev) == 0` (since /repo 9228ab2; it was `key == prev`, element-wise `is or ==`,
+   which coincides with it on keys satisfying eq_cmp_compat: NaN-free scalars, or NaN cells that are one object) *)
+Definition key_eqb (a b : val) : bool := cmp a b =? 0.
 
 (* keys2id = sort(list(zip(keys, range(len(self))))) *)
 Definition sorted_pairs (ks : list val) : list (val * nat) := map (fun i => (nth i ks VNone, i)) (dsort_idx ks).
